@@ -903,9 +903,15 @@ def iter_zip(eng, st, site, func, target, args, dty):
         elif eng.ent(st, c_le(b.src.len, a.src.len)):
             n = b.src.len
         else:
-            return None
-        return [(st, VIter("zip", n, a.pos, (a.src, b.src)))]
-    return None
+            n = None
+        if n is not None:
+            return [(st, VIter("zip", n, a.pos, (a.src, b.src)))]
+    # general case: two arbitrary iterators advanced in turn
+    import stubs3
+    ia, ib = stubs3._as_iter(eng, st, a), stubs3._as_iter(eng, st, b)
+    if ia is None or ib is None:
+        return None
+    return [(st, VIter("zip2", None, 0, (ia, ib), None))]
 
 
 @stub(r"^<u(8|16|32|64|size) as std::default::Default>::default$")
@@ -928,86 +934,25 @@ def range_fields(eng, st, v):
 
 @stub(r"std::iter::Iterator>::next$|^std::iter::Iterator::next$|std::iter::Iterator for std::ops::Range<A>>::next$|std::iter::DoubleEndedIterator.*::next_back$")
 def iter_next(eng, st, site, func, target, args, dty):
+    import iters
     it, loc = deref(eng, st, args[0], 1)
     if loc is None:
         return None
     back = target["name"].endswith("next_back")
-    # Rev<I>
-    if isinstance(it, VAdt) and (eng.adt_name(it) or "").endswith("Rev"):
-        inner = eng.variant_fields(st, it, 0)[0]
-        loc = (loc[0], loc[1] + (("f", 0, 0),))
-        it = inner
-        back = not back
-    fs = range_fields(eng, st, it)
-    if fs is not None:
-        start, end = fs
-        out = []
-        s_some = st.fork()
-        if eng.add(s_some, c_lt(start.lin, end.lin)):
-            if not back:
-                nv = VAdt(it.ty, it.vidx, {0: (VInt(start.ty, start.lin + 1), end)}, it.base)
-                item = VInt(start.ty, start.lin)
-            else:
-                nv = VAdt(it.ty, it.vidx, {0: (start, VInt(end.ty, end.lin - 1))}, it.base)
-                item = VInt(end.ty, end.lin - 1)
-            eng.store(s_some, loc[0], loc[1], nv)
-            s_some.emit(("range_next", back, item, site_info(site), start.lin, end.lin))
-            out.append((s_some, mk_option(eng, dty, True, item)))
-        if eng.add(st, c_le(end.lin, start.lin)):
-            out.append((st, mk_option(eng, dty, False)))
-        return out
-    if isinstance(it, VIter):
-        if it.kind == "array" and it.items is not None:
-            if it.pos < len(it.items):
-                eng.store(st, loc[0], loc[1], VIter(it.kind, it.items, it.pos + 1, it.src, it.extra))
-                return [(st, mk_option(eng, dty, True, it.items[it.pos]))]
-            return [(st, mk_option(eng, dty, False))]
-        if it.kind in ("slice", "zip", "vec") and isinstance(it.pos, Lin):
-            # exact cursor semantics: Some(element at pos) while pos < len
-            if it.kind == "slice":
-                lens = [it.src.len]
-            elif it.kind == "zip":
-                lens = [it.src[0].len, it.src[1].len]
-            else:
-                vv = st.cells.get(it.src)
-                lens = [vv.len] if isinstance(vv, VVec) else None
-            if lens is not None:
-                out = []
-                s_some = st.fork()
-                if all(eng.add(s_some, c_lt(it.pos, ln)) for ln in lens):
-                    if it.kind == "slice":
-                        item = elem_ref(eng, s_some, it.src, it.pos)
-                    elif it.kind == "zip":
-                        item = VAdt(None, Lin.const(0), {0: (elem_ref(eng, s_some, it.src[0], it.pos), elem_ref(eng, s_some, it.src[1], it.pos))})
-                    else:
-                        vv = s_some.cells.get(it.src)
-                        item = eng.unknown_elem(s_some, vv, it.pos)
-                    eng.store(s_some, loc[0], loc[1], VIter(it.kind, it.items, it.pos + 1, it.src, it.extra))
-                    s_some.emit(("range_next", False, VInt(eng.usize_ty(), it.pos), site_info(site), it.pos, lens[0]))
-                    s_some.emit(("iter_next", it.kind, (it.src.base if it.kind == "slice" else (it.src[0].base if it.kind == "zip" else it.src)), back, site_info(site)))
-                    out.append((s_some, mk_option(eng, dty, True, item)))
-                # None when some length is exhausted
-                for ln in lens:
-                    s_no = st.fork()
-                    if eng.add(s_no, c_le(ln, it.pos)):
-                        out.append((s_no, mk_option(eng, dty, False)))
-                return out
-        # unknown-length finite iterator
-        pos2 = (it.pos + 1) if isinstance(it.pos, (int, Lin)) else 0
-        eng.store(st, loc[0], loc[1], VIter(it.kind, it.items, pos2, it.src, it.extra))
-        st.emit(("iter_next", it.kind, it.src.base if isinstance(it.src, VSlice) else it.src, back, site_info(site)))
-        s_none = st.fork()
-        out = [(s_none, mk_option(eng, dty, False))]
-        ety = None
-        if dty is not None:
-            t = eng.T(dty)
-            if t["k"] == "adt" and t["args"]:
-                ety = t["args"][0]
-        nm = eng.fresh("item")
-        item = eng.symval(st, ety, nm) if ety is not None else VUnknown(None, nm)
-        out.append((st, mk_option(eng, dty, True, item)))
-        return out
-    return None
+    ety = None
+    if dty is not None:
+        t = eng.T(dty)
+        if t["k"] == "adt" and t["args"]:
+            ety = t["args"][0]
+    res = iters.step(eng, st, site, it, ety, back)
+    if res is None:
+        return None
+    out = []
+    for s2, it2, item in res:
+        if it2 is not None:
+            eng.store(s2, loc[0], loc[1], it2)
+        out.append((s2, mk_option(eng, dty, False) if item is iters.END else mk_option(eng, dty, True, item)))
+    return out
 
 
 def iter_items(eng, st, it):
@@ -1043,6 +988,11 @@ def classify_pred(eng, st, site, clo, ety, by_ref):
                 cell = ("clselem", nm)
                 probe.cells[cell] = e
                 arg = VRef(cell, (), False)
+                if by_ref == 2:
+                    # a filter predicate over a by-reference iterator sees &&T
+                    cell2 = ("clselem2", nm)
+                    probe.cells[cell2] = arg
+                    arg = VRef(cell2, (), False)
             rets = eng.call_closure(probe, site, clo, [arg])
             if not rets:
                 return None
